@@ -1,6 +1,6 @@
 """C07 -- errors, Jacobians and updates are independent of the world frame (algebraic clause)."""
 from ..poly import Poly
-from ..interp import Arr, Pose, sym_pose
+from ..interp import Arr, Pose, sym_pose, ga, sa
 from ..algebra import (CONFIGS, CDIM, cfg_name, run_obligation, run_tasks, record, ObFail, require_same, nterms, sym_config,
                        make_edge, ref_R_t, matvec, delta_vec, no_bad_wrap)
 from .c09 import pose_equal, qnorm_le_one_hook
@@ -36,6 +36,57 @@ def error_invariance(cfg):
         no_bad_wrap(it)
         return dict(terms=nterms(e0))
     return lambda pkg: run_obligation(pkg, fn, divisors=lambda name: True)
+
+
+def chi2_and_contributions_invariance(cfg):
+    """chi^2 of the edge is unchanged by the frame change, and its contributions to the linear system transform covariantly: gradient
+    blocks and Hessian blocks of pose vertices are unchanged, those of point vertices pick up the rotation of T
+    (g' = R_T g, H'_ll = R_T H_ll R_T^T, H'_pl = H_pl R_T^T) -- which is what makes dx' the transformed dx."""
+    def fn(it):
+        from ..assembly import sym_symmetric
+        from ..algebra import CDIM
+        p1, p2, z, off, T = setup(it, cfg)
+        W = sym_symmetric("W", CDIM[cfg[3]])
+
+        def contributions(a, b):
+            e = make_edge(it, cfg, a, b, z, off, info=W)
+            for v, g in zip(ga(e, "vertices"), (Poly.const(0), Poly.const(10))):
+                sa(v, "gradient_index", g)
+            chi = it.call_method(e, "calc_chi2", [])
+            res = it.call_method(e, "calc_chi2_gradient_hessian", [])
+            res = it.iterate(res, None) if not isinstance(res, (tuple, list)) else res
+            grad = {tuple(x)[0].const_value(): tuple(x)[1] for x in map(lambda y: tuple(it.iterate(y, None)), it.iterate(res[1], None))}
+            hess = {}
+            for item in it.iterate(res[2], None):
+                key, blk = tuple(it.iterate(item, None))
+                key = tuple(k_.const_value() for k_ in it.iterate(key, None))
+                hess[key] = blk
+            return chi, res[0], grad, hess
+        c0, cc0, g0, h0 = contributions(p1, p2)
+        c1, cc1, g1, h1 = contributions(transform(it, T, p1), transform(it, T, p2))
+        if cfg[3] != "PoseSE2" or cfg[0] != "EdgeOdometry":
+            require_same(c1, c0, "%s: calc_chi2 changes when every vertex is left-composed with T" % cfg_name(cfg))
+            require_same(cc1, cc0, "%s: the chi^2 contribution changes under the frame change" % cfg_name(cfg))
+        R, _ = ref_R_t(it, T)
+        Rm = Arr(R, 2)
+        is_point = [t != T.cls for t in (cfg[1], cfg[2])]
+        idx = [0, 10]
+        for k in (0, 1):
+            want = g0[idx[k]] if not is_point[k] else it.dot(Rm, g0[idx[k]], None)
+            require_same(g1[idx[k]], want, "%s: gradient block of vertex %d is not covariant under the frame change" % (cfg_name(cfg), k))
+        for (i, j), blk in h0.items():
+            a_, b_ = idx.index(i), idx.index(j)
+            want = blk
+            if is_point[a_]:
+                want = it.dot(Rm, want, None)
+            if is_point[b_]:
+                want = it.dot(want, Rm.T(), None)
+            if (i, j) not in h1:
+                raise ObFail("%s: Hessian block (%d, %d) disappears under the frame change" % (cfg_name(cfg), a_, b_))
+            require_same(h1[(i, j)], want, "%s: Hessian block (vertex %d, vertex %d) is not covariant under the frame change "
+                                           "(H' = G H G^T with G = diag(I, R_T))" % (cfg_name(cfg), a_, b_))
+        return dict(blocks=len(h0))
+    return lambda pkg: run_obligation(pkg, fn)
 
 
 def jacobian_covariance(cfg, k):
@@ -95,6 +146,11 @@ def run(run_, pkg, tier):
         fj = pkg.method(cfg[0], "calc_jacobians")
         name = cfg_name(cfg)
         cand = [("%s/error-invariant" % name, "C07-error-invariance", error_invariance(cfg), fe)]
+        # for an edge class that inherits BaseEdge's chi^2 / contribution code, covariance of chi^2, b and H follows from (a), (b) and
+        # C03-a; a class that brings its own is checked directly (quick enough, but only then: the SE(3) blocks are large)
+        own = any(pkg.own_method(c_, m_) is not None for c_ in pkg.mro(cfg[0]) if c_ != "BaseEdge" for m_ in ("calc_chi2", "calc_chi2_gradient_hessian"))
+        if own and (cfg[3] != "PoseSE2" or cfg[0] != "EdgeOdometry"):      # (SE(2) odometry: error compared modulo 2*pi above)
+            cand.append(("%s/chi2-and-contributions" % name, "C07-contributions-covariance", chi2_and_contributions_invariance(cfg), fe))
         for k in (0, 1):
             cand.append(("%s/jacobian-vertex%d" % (name, k), "C07-jacobian-covariance", jacobian_covariance(cfg, k), fj))
             cand.append(("%s/update-vertex%d" % (name, k), "C07-update-equivariance", update_equivariance(cfg, k), fe))
